@@ -24,7 +24,7 @@ Definition c13_case := (comp * list (op Z) * list (list Z) * list (list Z) * lis
 
 Definition opaque (c : comp) : bool :=
   match c with
-  | NackRtx | FlexFec | DumpSender | DumpReceiver | StatsOut | StatsIn | TwccSender | Rtpfb => true
+  | NackRtx | FlexFec | DumpSender | DumpReceiver | DumpReceiverRtcp | StatsOut | StatsIn | TwccSender | Rtpfb => true
   | _ => false
   end.
 
